@@ -962,8 +962,15 @@ func (r *Resolvable) printExtensions(ctx context.Context, fetchTree *FetchTreeNo
 		}
 		writeComma = true //nolint:all // should we add another print func, we should not forget to write a comma
 
+		// fixed key order: ranging over the map made the response bytes differ from run to run
+		keys := make([]string, 0, len(r.allowedExtensions))
+		for key := range r.allowedExtensions {
+			keys = append(keys, key)
+		}
+		sort.Strings(keys)
 		counter := 0
-		for key, value := range r.allowedExtensions {
+		for _, key := range keys {
+			value := r.allowedExtensions[key]
 			if counter > 0 {
 				r.printBytes(comma)
 			}
